@@ -19,6 +19,7 @@ RULE = ("(a) P-code grammar texts (opv.gen_pcode.Gen and a structure generator b
         "surrogates, given as method lines (one ParserMethodLine per line) or as \\n / \\r\\n joined text; (c) exhaustive "
         "enumeration of all line-kind x indent vectors: kinds {opener, plain instruction, blank} x indents {0,4,8,12} "
         "up to length 4 (quick) / 5 (thorough) and kinds {opener, plain} x {0,4,8,12} at length 5 (quick) / 6 (thorough). "
+        "Lines after the first indentation error of a text are judged too (rules R3-R5 of the assumptions). "
         "distinct = (kind, indent, flagged) vector of the method; non-trivial = at least one opener, one indented "
         "instruction line and at least two judged lines")
 ASSUMPTIONS = [
@@ -28,18 +29,34 @@ ASSUMPTIONS = [
     "law and only have to exist as nodes, in order, with their line's id",
     "reading of the statement that is asserted (weakest reasonable one): (R1) as long as the text is correctly indented "
     "according to the law, an unflagged line must have exactly the law parent (a correctly indented line that is "
-    "flagged is allowed and counted); (R2) the first incorrectly indented line of a text must be flagged. After the "
-    "first incorrectly indented line, and after the first silent mis-nesting, the placement of later lines is not "
-    "judged (the statement says 'for correctly indented text'); DESIGN.md's per-line law is evaluated there only as "
-    "an informational counter",
-    "every R1/R2 witness is re-checked on the text truncated after the offending line (itself a correctly indented "
-    "text resp. a text whose only wrong line is the last one) and reported in that minimal form",
+    "flagged is allowed and counted); (R2) the first incorrectly indented line of a text must be flagged",
+    "after the first incorrectly indented line the statement does not say whether an incorrectly indented line still "
+    "counts as a 'preceding line', so three readings are computed from the source lines alone: A every line counts, "
+    "B only correctly indented lines count (recursively), H correctly indented lines and all openers count; a line is "
+    "'incorrect under some reading' if A, B or H has no parent for it. Judged there, up to the first ambiguous line or "
+    "the first violation of the text: (R3) a line for which no preceding opener exactly four spaces shallower exists "
+    "that is not cut off by a shallower line that is correct under all readings (no reading gives it a parent; this "
+    "includes every indentation that is not 0 and has no opener at indent-4 before it) must be flagged; (R4) an "
+    "unflagged line on which A, B and H agree must have exactly that parent; (R5) any other unflagged line must have "
+    "one of the parents some reading can give it. A flagged line that a reading justifies is allowed and counted "
+    "(the statement does not say that correct lines are never flagged)",
+    "not judged after the first error (counted): lines in the body of an incorrectly indented opener, i.e. after an "
+    "opener that is incorrect under some reading and deeper than it, until a line at or left of that opener (the "
+    "statement does not say whether such a body is one level below where the opener stands or below where it should "
+    "have stood; upstream deliberately accepts `  Block: A` / `    Mark: B`); lines that only some reading "
+    "justifies may be flagged or not (R5 only restricts the parent of the unflagged ones)",
+    "every R1-R5 witness is re-checked on the text truncated after the offending line and reported in that minimal form",
     "not judged, and ending the judged prefix: a line whose indentation contains anything but U+0020, an indented line "
     "the parser cannot match (it reports column 0 for it) and a line whose opener-ness is ambiguous (name starting "
     "with a digit etc.)",
 ]
-REQUIRED = {"texts": 2000, "nodes_checked": 10000, "parent_checks": 5000, "flagged_lines": 500, "law_must_flag": 300}
+REQUIRED = {"texts": 2000, "nodes_checked": 10000, "parent_checks": 5000, "flagged_lines": 500, "law_must_flag": 300,
+            "after_error_must_flag": 5000, "after_error_parent_checks": 5000, "after_error_flagged_lines": 5000}
 EXHAUSTIVE_ALL = False
+# Off: the statement says that wrong indentation is flagged, not that correct indentation never is (DESIGN.md C17), so a
+# flagged line that every reading justifies is only counted. Switching it on judges those lines too (rules 'overflag' /
+# 'overflag_after_error'); on the unchanged tree the only occurrences then fall under the flagged-opener mechanism.
+JUDGE_OVERFLAGGING = False
 
 OPENER_NAMES = ("Block", "Watch", "Alarm", "Macro")
 SEPARATORS = ["\n", "\r", "\r\n", "\x0b", "\x0c", "\x1c", "\x1d", "\x1e", "\x85", "\u2028", "\u2029"]
@@ -77,6 +94,90 @@ def law_parent(k, lines_info, skip_flagged=False):
                 return j
             return None
     return None
+
+
+class Readings:
+    """What the statement can mean for a line that follows an incorrectly indented line. The statement does not say
+    whether an incorrectly indented line still counts as a 'preceding line' for the lines after it, so three coherent
+    readings are computed from the source lines alone (never from the parser's flags):
+      A  every line counts (DESIGN.md's per-line law),
+      B  only the correctly indented lines count (recursively: correct w.r.t. the correct lines before it),
+      H  correctly indented lines and every opener count (a mis-indented opener still opens a body).
+    law parent per reading: index, -1 = program, None = the line must be flagged under that reading."""
+
+    def __init__(self, info):
+        self.info = info
+        self.A, self.B, self.H = [], [], []
+        self.err = set()      # lines that are incorrectly indented under at least one reading
+
+    def _lp(self, k, keep):
+        info = self.info
+        i = info[k]["indent"]
+        if i == 0:
+            return -1
+        for j in range(k - 1, -1, -1):
+            if info[j]["ws"] or not keep(j):
+                continue
+            if info[j]["indent"] < i:
+                return j if info[j]["indent"] == i - 4 and info[j]["opener"] else None
+        return None
+
+    def extend(self, k):
+        info = self.info
+        for m in range(len(self.A), k + 1):
+            if info[m]["ws"]:
+                a = b = hh = "ws"
+            else:
+                a = self._lp(m, lambda j: True)
+                b = self._lp(m, lambda j: self.B[j] is not None)
+                hh = self._lp(m, lambda j: self.H[j] is not None or info[j]["opener"])
+                if a is None or b is None or hh is None:
+                    self.err.add(m)
+            self.A.append(a)
+            self.B.append(b)
+            self.H.append(hh)
+
+    def in_body_of_misindented_opener(self, k):
+        """some preceding opener is incorrectly indented under at least one reading and every instruction line after
+        it up to and including line k is deeper than that opener"""
+        info = self.info
+        low = info[k]["indent"]
+        for j in range(k - 1, -1, -1):
+            if info[j]["ws"]:
+                continue
+            if info[j]["opener"] and j in self.err and info[j]["indent"] < low:
+                return True
+            low = min(low, info[j]["indent"])
+            if low == 0:
+                return False
+        return False
+
+    def settled(self, k):
+        """the law parent if all readings agree that the line is correctly indented, else None"""
+        a = self.A[k]
+        return a if a is not None and a == self.B[k] == self.H[k] else None
+
+    def candidates(self, k):
+        """every parent some reading can give the line: an opener one level shallower such that every shallower line
+        in between is itself incorrectly indented under some reading (so that a reading may skip it)"""
+        info = self.info
+        i = info[k]["indent"]
+        if i == 0:
+            return {-1}
+        out = set()
+        for j in range(k - 1, -1, -1):
+            if info[j]["ws"]:
+                continue
+            if info[j]["indent"] < i:
+                if info[j]["indent"] == i - 4 and info[j]["opener"]:
+                    out.add(j)
+                if j not in self.err:
+                    break
+        return out
+
+
+def _pname(q, lines):
+    return "None" if q is None else "program" if q == -1 else f"line {q} {lines[q][1]!r}"
 
 
 # ------------------------------------------------------------------------------------------------ monitor
@@ -138,6 +239,7 @@ def judge(lines, text=None):
     parents = [-1 if nd.parent is prog else index_of[id(nd.parent)] for nd in nodes]
     out["info"], out["parents"] = info, parents
     state = "correct"       # the text up to here is correctly indented according to the law
+    rd = Readings(info)
     for k, (_, c) in enumerate(lines):
         li = info[k]
         nd = nodes[k]
@@ -153,13 +255,64 @@ def judge(lines, text=None):
             ambiguous = "unparsable_indented_line_not_judged"
         elif li["opener"] != isinstance(nd, p.NodeWithChildren):
             ambiguous = "opener_ambiguous_not_judged"
+        if state == "error" and ambiguous is None:
+            # after the first incorrectly indented line: only what every reading of the statement requires (R3-R5)
+            rd.extend(k)
+            if rd.in_body_of_misindented_opener(k):
+                # the statement does not say what the body of an opener that is itself incorrectly indented has to
+                # look like (one level below where the opener stands, or below where it should have stood): not judged
+                cnt["after_error_line_in_body_of_misindented_opener_not_judged"] += 1
+                continue
+            cands = rd.candidates(k)
+            settled = rd.settled(k)
+            if not cands:
+                cnt["after_error_must_flag"] += 1
+                if li["flagged"]:
+                    cnt["after_error_flagged_lines"] += 1
+                else:
+                    state = "misnested"
+                    out["viol"].append(("must_flag_after_error", k, f"line {k} {c!r} (indent {li['indent']}) follows "
+                                        f"an earlier indentation error; no preceding line that opens a body can be its "
+                                        f"parent under any reading (none at indent {li['indent'] - 4} that is not cut "
+                                        f"off by a correctly indented shallower line), yet it is not flagged and was "
+                                        f"given parent {_pname(parents[k], lines)}"))
+                continue
+            if li["flagged"]:
+                cnt["after_error_flagged_lines"] += 1
+                cnt["after_error_justified_line_flagged (allowed)" if settled is not None else
+                    "after_error_reading_dependent_line_flagged (allowed)"] += 1
+                if settled is not None and JUDGE_OVERFLAGGING:
+                    state = "misnested"
+                    out["viol"].append(("overflag_after_error", k, f"line {k} {c!r} (indent {li['indent']}) follows an "
+                                        f"earlier indentation error, is correctly indented under every reading (law "
+                                        f"parent {_pname(settled, lines)}) and is flagged as an indentation error"))
+                continue
+            if settled is not None:
+                cnt["after_error_parent_checks"] += 1
+                if parents[k] != settled:
+                    state = "misnested"
+                    out["viol"].append(("parent_after_error", k, f"line {k} {c!r} (indent {li['indent']}) follows an "
+                                        f"earlier indentation error, is itself correctly indented whether or not the "
+                                        f"incorrectly indented lines are counted, is not flagged, its parent is "
+                                        f"{_pname(parents[k], lines)}, law parent is {_pname(settled, lines)}"))
+                continue
+            cnt["after_error_reading_dependent_unflagged_lines"] += 1
+            if parents[k] in cands:
+                cnt["after_error_reading_dependent_parent_is_a_candidate"] += 1
+            else:
+                state = "misnested"
+                out["viol"].append(("parent_no_reading", k, f"line {k} {c!r} (indent {li['indent']}) follows an earlier "
+                                    f"indentation error, is not flagged and its parent {_pname(parents[k], lines)} is "
+                                    f"not its law parent under any reading (candidates: "
+                                    f"{[_pname(x, lines) for x in sorted(cands)]})"))
+            continue
+        if state == "error":
+            cnt[ambiguous] += 1
+            state = "ambiguous"
+            continue
         if state != "correct":
-            # after the first incorrectly indented (or ambiguous) line the statement leaves the placement of later
-            # lines open ("for correctly indented text ..."): observed, counted, not judged
-            cnt["lines_after_first_error_not_judged"] += 1
-            if ambiguous is None and not li["flagged"]:
-                if parents[k] not in (law_parent(k, info), law_parent(k, info, True)):
-                    cnt["after_error_unflagged_line_off_per_line_law (informational)"] += 1
+            # after an ambiguous line / after the first violation of a text: observed, counted, not judged
+            cnt["lines_after_ambiguous_line_or_violation_not_judged"] += 1
             continue
         if ambiguous:
             cnt[ambiguous] += 1
@@ -172,6 +325,7 @@ def judge(lines, text=None):
             if li["flagged"]:
                 cnt["flagged_lines"] += 1
             else:
+                state = "misnested"
                 out["viol"].append(("must_flag", k, f"line {k} {c!r} (indent {li['indent']}) is the first incorrectly "
                                     f"indented line, is not flagged and was given parent "
                                     f"{'program' if parents[k] == -1 else 'line ' + str(parents[k])}"))
@@ -179,6 +333,10 @@ def judge(lines, text=None):
         if li["flagged"]:
             cnt["flagged_lines"] += 1
             cnt["correctly_indented_line_flagged (allowed)"] += 1
+            if JUDGE_OVERFLAGGING:
+                state = "misnested"
+                out["viol"].append(("overflag", k, f"line {k} {c!r} (indent {li['indent']}) of a correctly indented text "
+                                    f"is flagged as an indentation error"))
             continue
         cnt["parent_checks"] += 1
         out["judged"] += 1
@@ -214,7 +372,7 @@ def check_method(lines, res: Result, origin: str, text: str | None = None):
         if again:
             res.violation(classify(rule, k, out2["info"], out2["parents"], cut), again[0][2],
                           {"origin": origin + " (truncated after the offending line)", "lines": [list(x) for x in cut]})
-        elif rule == "must_flag":
+        elif rule.startswith(("must_flag", "overflag")):
             res.violation(classify(rule, k, out["info"], out["parents"], lines), msg, case)
         else:
             res.count("parent_violation_not_confirmed_on_truncated_text")
@@ -232,7 +390,11 @@ def classify(rule, k, info, parents, lines=None):
     """Narrow causal classifiers of the defects known on the unchanged tree. All of them concern rule 'parent' (a
     line of a correctly indented text that is silently nested too deep); a line that must be flagged and is not
     never gets a key."""
-    if rule != "parent" or info is None:
+    if info is None:
+        return None
+    if rule in ("must_flag_after_error", "parent_after_error", "parent_no_reading", "overflag_after_error"):
+        return classify_after_error(k, info, lines)
+    if rule != "parent":
         return None
     ind = info[k]["indent"]
     prev = [j for j in range(k - 1, -1, -1) if not info[j]["ws"]]
@@ -288,6 +450,35 @@ def classify(rule, k, info, parents, lines=None):
     if len(rest) == 1 and rest[0][0] == "parent" and classify("parent", rest[0][1], out["info"], out["parents"], None) in (
             "C17.same_indent_after_opener_nested", "C17.outdent_after_empty_opener_one_level_short"):
         return "C17.blank_after_opener_then_outer_line_nested"
+    return None
+
+
+def classify_after_error(k, info, lines):
+    """(3) an incorrectly indented opener is flagged and nevertheless becomes the parser's current parent (with
+    'increment required'), while prev_indent stays that of the last unflagged line: the lines after it are compared with
+    a (prev_indent, parent) pair that is out of step. Causal test: (a) a flagged, incorrectly indented opener precedes
+    the line and (b) the real parser treats the line as required once the keyword of every such opener is replaced by
+    a plain instruction at the same indentation (repeated, because the replacement changes which later openers are
+    flagged). A text without a flagged mis-indented opener never gets the key."""
+    if lines is None:
+        return None
+    cur = [tuple(x) for x in lines[:k + 1]]
+    replaced = False
+    for _ in range(len(cur) + 1):
+        rd = Readings(info)
+        rd.extend(k)
+        bad_openers = [j for j in range(k) if info[j]["opener"] and info[j]["flagged"] and j in rd.err]
+        if not bad_openers:
+            return None
+        replaced = True
+        cur = [(i, " " * info[j]["indent"] + "Mark: x") if j in bad_openers else (i, c) for j, (i, c) in enumerate(cur)]
+        out = judge(cur)
+        info = out["info"]
+        if info is None:
+            return None
+        if any(v[1] is None or v[1] <= k for v in out["viol"]):
+            continue
+        return "C17.line_after_flagged_opener_placed_by_stale_prev_indent" if replaced else None
     return None
 
 
